@@ -12,6 +12,7 @@ import (
 	"io"
 	"os"
 	"path/filepath"
+	"strings"
 )
 
 // A Ruleset is the result of reading, parsing, and compiling a
@@ -96,7 +97,11 @@ func (r *Ruleset) Excludes(path string) (ExcludesResult, error) {
 		}
 		if match {
 			foundMatch = !rule.negated
-			dominating = foundMatch && !rule.negationsAfter
+			// A match can only stand for everything below a directory when
+			// the pattern itself covers every descendant, i.e. ends in "**"
+			// (a directory rule). A pattern such as "foo/*" matches "foo/"
+			// but says nothing about "foo/a/b".
+			dominating = foundMatch && !rule.negationsAfter && strings.HasSuffix(rule.val, "**")
 		}
 	}
 	return ExcludesResult{
